@@ -1,18 +1,16 @@
 (* Model/C16Text.v — from the CHARACTERS of a file to the token stream of Model/C16Lines.v.
    A file is cut into atoms: the white-space characters blank, CR, LF one by one, and the maximal pieces free of white space
    (each classified as word / integer text / number text by the harness); tab / VT / FF are the atom AOws (below).
-   import_data opens the file in text mode (universal newlines: CR LF is read as LF) and reads
-     header and sparse-entry lines with   fp.readline().strip().split(" ")
-       strip():     blanks (and the line break) at both ends of the line are dropped
+   import_data opens the file with newline="\n" (/repo a0b5a3f, repairing finding C16-N3): LF alone ends a line, a CR is an
+   ordinary white-space character of the line it stands in — exactly like tab / VT / FF (below): the CR of a CR LF line end
+   is dropped by strip() with the other white space at the end of the line, a lone CR (old Mac line ends) does NOT end a
+   line.  It reads header and sparse-entry lines with   fp.readline().strip().split(" ")
+       strip():     white space (and the line break) at both ends of the line is dropped
        split(" "):  the pieces between SINGLE blanks; k adjacent blanks inside the line give k-1 empty pieces, and int("") /
                     float("") / np.int64("") raise — the GAP marker [Word ""]: unreadable where an integer, a subscript or a
                     value is expected on such a line, not a type word, ignored where the rest of a line is ignored
      values with    np.fromfile(fp, count, sep=" "), for which any run of white space (gaps and line breaks) is a separator.
-   [lex] is that tokenisation as one pass over the atoms; a lone CR (old Mac line ends) is a line break for readline, but
-   np.fromfile called right after such a line raises OverflowError (the text file's tell() cookie then carries the newline
-   decoder's pending-CR state and is not a file offset): files with lone CRs are outside the claims.  The same error can hit
-   a CR LF file when CPython's tell() picks a start point between CR and LF (finding C16-N3; observed on CR LF files of
-   rank-0 Kruskal tensors only): such outcomes are outside the model as well.
+   [lex] is that tokenisation as one pass over the atoms.
    Definitions only. *)
 From Coq Require Import String.
 From Coq Require Import List Arith ZArith Lia Bool.
@@ -24,7 +22,8 @@ Variables (D T : Type) (d0 : D) (parse : T -> D) (ofZ : Z -> D).
 Notation token := (token T).
 Notation line := (list token).
 
-(* AOws: one of the OTHER white-space characters tab / VT / FF.  strip() drops them at both ends of a line like blanks;
+(* AOws: one of the OTHER white-space characters tab / VT / FF; ACR (carriage return) is read in exactly the same way
+   everywhere ([cr_ows], Proofs/C16Text.v lex_cr_ows) and is kept as an atom of its own only to spell CR LF line ends.  strip() drops them at both ends of a line like blanks;
    split(" ") does NOT cut at them: inside a line they stay in the piece.  int() / np.int64() / float() ignore white space at
    both ends of the text they are given, so an integer or number text with such characters attached is read as if they were
    not there ("2 \t3" = 2, 3); a piece holding nothing else is unreadable ("2 \t 3"), a piece holding two texts joined by
@@ -38,21 +37,21 @@ Definition gap : option token := Some (Word EmptyString).
 
 (* look-ahead on the rest of the line *)
 Fixpoint has_tok (r : list atom) : bool :=         (* a piece follows before the line ends *)
-  match r with ABlank :: r' | AOws :: r' => has_tok r' | ATok _ :: _ => true | _ => false end.
+  match r with ABlank :: r' | AOws :: r' | ACR :: r' => has_tok r' | ATok _ :: _ => true | _ => false end.
 Fixpoint after_ows (r : list atom) : bool :=       (* tab / VT / FF only, then a text: the same piece goes on *)
-  match r with AOws :: r' => after_ows r' | ATok _ :: _ => true | _ => false end.
+  match r with AOws :: r' | ACR :: r' => after_ows r' | ATok _ :: _ => true | _ => false end.
 Definition is_word (t : token) : bool := match t with Word _ => true | _ => false end.
 (* the piece that starts with text t is unreadable as one item: another text is joined to it by tab / VT / FF, or t is a
    word with such a character attached inside the line (only the type word is ever compared) *)
 Definition marked (t : token) (r : list atom) : bool :=
-  match r with AOws :: r' => if is_word t then has_tok r' else after_ows r' | _ => false end.
+  match r with AOws :: r' | ACR :: r' => if is_word t then has_tok r' else after_ows r' | _ => false end.
 
 (* started: a piece has been seen on the current line; pend: blanks seen since the last text *)
 Fixpoint lex_aux (started : bool) (pend : nat) (a : list atom) : stream T :=
   match a with
   | [] => []
   | ABlank :: r => lex_aux started (if started then S pend else 0) r
-  | AOws :: r => lex_aux started pend r
+  | AOws :: r | ACR :: r => lex_aux started pend r
   | ATok t :: r =>
       (if started then
          match pend with
@@ -61,9 +60,11 @@ Fixpoint lex_aux (started : bool) (pend : nat) (a : list atom) : stream T :=
          end
        else if marked t r then [gap] else []) ++ Some t :: lex_aux true 0 r
   | ALF :: r => None :: lex_aux false 0 r
-  | ACR :: r => match r with ALF :: _ => lex_aux started pend r | _ => None :: lex_aux false 0 r end
   end.
 Definition lex (a : list atom) : stream T := lex_aux false 0 a.
+
+(* every CR replaced by a tab *)
+Definition cr_ows (a : atom) : atom := match a with ACR => AOws | _ => a end.
 
 (* import_data(filename, index_base = b) on the characters of the file *)
 Definition import_text (b : Z) (a : list atom) : option (obj D) := import_stream D T d0 parse ofZ b (lex a).
